@@ -150,14 +150,16 @@ def gen_probe_op(rng, trs_pool=None):
         return {"p": "trslist", "items": items,
                 "key": key, "reverse": _gen_reverse(rng, key),
                 "then": rng.choice(("sort", "sort", "dups", "group",
-                                    "contains", "group_sorted"))}
+                                    "contains", "group_sorted",
+                                    "group_unpack", "nested"))}
     if r < 0.97:
         key = copy.deepcopy(rng.choice(SORT_KEYS))
         return {"p": "tractlist",
                 "texts": [corpus.gen_desc(rng) for _ in range(rng.randint(1, 2))],
                 "key": key, "reverse": _gen_reverse(rng, key),
                 "then": rng.choice(("sort_i", "dups", "group", "list_trs",
-                                    "sort", "sort"))}
+                                    "sort", "sort", "group_unpack",
+                                    "group_func", "snapshot"))}
     if r < 0.985:
         return {"p": "sort_i", "text": corpus.gen_desc(rng),
                 "scramble": copy.deepcopy(rng.choice(
@@ -606,6 +608,16 @@ def _run_probe_op(pytrs, op, hooks=None):
                                    sort_key=_mk_key(op.get("key", "s")))), tl
         if then == "dups":
             return [enc(tl.filter_duplicates()), enc(tl)], tl
+        if then == "group_unpack":
+            g = tl.group_by("twprge")
+            key = _mk_key(op.get("key", "s"))
+            g2 = pytrs.TRSList.sort_grouped(g, key)
+            return [enc(g2), enc(pytrs.TRSList.unpack_group(g)),
+                    enc(pytrs.TRSList.unpack_group(g, sort_key=key)),
+                    enc(tl)], tl
+        if then == "nested":
+            return [enc(tl.group_by(["twp", "rge"], sort_key=_mk_key(op.get("key", "s")))),
+                    enc(tl.group_by(["twp", "sec"]))], tl
         if then == "group":
             return enc(tl.group_by("twprge")), tl
         return [tl.contains(op["items"][0]), enc(tl)], tl
@@ -623,6 +635,20 @@ def _run_probe_op(pytrs, op, hooks=None):
             return enc(tl), tl
         if then == "dups":
             return enc(tl.filter_duplicates(method="lots_qqs")), tl
+        if then == "group_unpack":
+            g = tl.group_by("twprge")
+            key = _mk_key(op.get("key", "s"))
+            g2 = pytrs.sort_grouped_tracts(g, key)
+            return [enc(g2), enc(pytrs.TractList.unpack_group(g)),
+                    enc(pytrs.TractList.unpack_group(g, sort_key=key)),
+                    enc(tl)], tl
+        if then == "group_func":
+            g = pytrs.group_tracts_by(descs, "twprge",
+                                      sort_key=_mk_key(op.get("key", "s")))
+            return [enc(g), enc(tl.group_by(["twp", "sec"]))], tl
+        if then == "snapshot":
+            return [tl.snapshot_inside(), tl.quick_desc(),
+                    enc(tl.tracts_to_dict("trs", "lots_qqs"))], tl
         if then == "group":
             return enc(tl.group_by("twprge", sort_key="i")), tl
         return tl.list_trs(remove_duplicates=True), tl
